@@ -423,3 +423,7 @@ proof!(c05_batch_dec_n0, 12, { batch_decode::<0, 8>(&[]) });
 proof!(c05_batch_dec_n1, 12, { batch_decode::<2, 18>(&[2]) });
 proof!(c05_batch_dec_n2, 12, { batch_decode::<2, 26>(&[1, 1]) });
 proof!(c05_batch_dec_n3, 12, { batch_decode::<3, 35>(&[2, 0, 1]) });
+// batches with more messages than payload bytes (empty messages)
+proof!(c05_batch_dec_e1, 12, { batch_decode::<0, 16>(&[0]) });
+proof!(c05_batch_dec_e3, 12, { batch_decode::<1, 33>(&[0, 1, 0]) });
+proof!(c05_batch_enc_e2, 40, { batch_encode::<0, 24>(&[0, 0]) });
